@@ -65,6 +65,8 @@ func (r *renderer) jsNode(n Node) string {
 		return fmt.Sprintf("log(%d);", evid(n.Id, 0))
 	case "probe":
 		return "probe();"
+	case "pthrow":
+		return "pthrow();"
 	case "throw":
 		return `throw new Error("t");`
 	case "loop":
@@ -174,6 +176,8 @@ func coqNode(n Node) string {
 		return fmt.Sprintf("(IEv %d%%N)", evid(n.Id, 0))
 	case "probe":
 		return "IProbe"
+	case "pthrow":
+		return "IProbeThrow"
 	case "throw":
 		return "IThrow"
 	case "try":
@@ -219,7 +223,7 @@ func coqNode(n Node) string {
 		}
 		return fmt.Sprintf("(IGen (mks %s))", vh.CoqList(segs))
 	case "genret":
-		return fmt.Sprintf("(IGen (mks [%s; %s]))", coqCode(n.B), coqEvThen(evid(n.Id, 2), n.F))
+		return fmt.Sprintf("(IGenRet %s %s)", coqCode(n.B), coqEvThen(evid(n.Id, 2), n.F))
 	case "async":
 		return fmt.Sprintf("(IAsync %s %s)", coqCode(n.B), coqCode(n.F))
 	case "job":
@@ -308,7 +312,7 @@ func newEnv(k int, clr bool) *env {
 			e.after++
 		}
 	})
-	vm.Set("probe", func() {
+	probe := func() {
 		e.probes++
 		e.log = append(e.log, 7)
 		if e.armed {
@@ -322,6 +326,13 @@ func newEnv(k int, clr bool) *env {
 				e.armed = true
 			}
 		}
+	}
+	vm.Set("probe", probe)
+	// a host function that (possibly) interrupts and then throws a catchable error: the exception unwinds, closing
+	// iterators and entering handlers, while the interrupt is pending
+	vm.Set("pthrow", func() {
+		probe()
+		panic(vm.NewTypeError("pthrow"))
 	})
 	run := func(sw bool) func(i int) {
 		return func(i int) {
@@ -512,10 +523,9 @@ func runCase(w *vh.Writer, c Case) obs {
 // generation
 
 type gen struct {
-	r       *vh.Rng
-	serial  int
-	budget  int
-	noThrow int // > 0 inside the try body of a generator that is closed by return(): a throw there would run the finally
+	r      *vh.Rng
+	serial int
+	budget int
 }
 
 func (g *gen) id() int { g.serial++; return g.serial }
@@ -544,20 +554,26 @@ func (g *gen) node(depth int, inTry bool) Node {
 		case 1:
 			return Node{T: "probe"}
 		default:
-			if inTry && g.noThrow == 0 {
+			if inTry {
+				if g.r.Chance(50) {
+					return Node{T: "pthrow"}
+				}
 				return Node{T: "throw"}
 			}
 			return Node{T: "ev", Id: g.id()}
 		}
 	}
 	d := depth - 1
-	switch g.r.Pick(10, 10, 3, 6, 14, 6, 18, 9, 7, 7, 8, 4) {
+	switch g.r.Pick(10, 10, 5, 6, 14, 6, 18, 10, 7, 7, 8, 4) {
 	case 0:
 		return Node{T: "ev", Id: g.id()}
 	case 1:
 		return Node{T: "probe"}
 	case 2:
-		if inTry && g.noThrow == 0 {
+		if inTry {
+			if g.r.Chance(60) {
+				return Node{T: "pthrow"}
+			}
 			return Node{T: "throw"}
 		}
 		return Node{T: "probe"}
@@ -605,9 +621,7 @@ func (g *gen) node(depth int, inTry bool) Node {
 		return Node{T: "job", Id: g.id(), B: g.body(d, true)}
 	default:
 		n := Node{T: "genret", Id: g.id()}
-		g.noThrow++
-		n.B = g.body(d, false)
-		g.noThrow--
+		n.B = g.body(d, true)
 		n.F = g.body(d, inTry)
 		return n
 	}
